@@ -150,8 +150,9 @@ def _bad_escape(e):
 # ------------------------------------------------------------------ C++ structure
 
 
-def function_body(src, qualname):
-    """Body (between the braces) and parameter text of the out-of-line definition `qualname(`."""
+def function_body(src, qualname, nparams=None):
+    """Body (between the braces) and parameter text of the out-of-line definition `qualname(`
+    (of the overload with `nparams` parameters, when given)."""
     hits = [m for m in re.finditer(r"\b" + re.escape(qualname) + r"\s*\(", src)]
     defs = []
     for m in hits:
@@ -162,7 +163,10 @@ def function_body(src, qualname):
         if tail:
             b0 = k + tail.end() - 1
             b1 = matching(src, b0)
-            defs.append((src[p0 + 1:p1], src[b0 + 1:b1]))
+            params = src[p0 + 1:p1]
+            if nparams is not None and len([p for p in split_top(params, ",") if p.strip()]) != nparams:
+                continue
+            defs.append((params, src[b0 + 1:b1]))
     if len(defs) != 1:
         raise Unsupported("%s: %d definitions" % (qualname, len(defs)))
     return defs[0]
@@ -828,7 +832,7 @@ def translate():
         raise Unsupported("entity add_back: no INSERT")
     out.append("/-- playlist_entity_table::add_back -/\ndef entityInsert : List (WB ECol EField) := %s\n" % lean_list(ins, "  "))
 
-    params, body = function_body(esrc, "playlist_entity_table::get")
+    params, body = function_body(esrc, "playlist_entity_table::get", 2)
     st = db_statements(body)
     if ws(params) != "int64_t list_id, int64_t track_id" or len(st) != 1:
         raise Unsupported("entity get: shape")
